@@ -136,6 +136,15 @@ def composite_codec_encode_into_pdu(codec: CompositeCodec, physical_value: Optio
     orig_is_end_of_pdu = encode_state.is_end_of_pdu
     encode_state.is_end_of_pdu = False
 
+    # the values of the length- and table keys of this object are
+    # determined by this object. What has been determined for equally
+    # named keys before (e.g., by the previous item of a field) does
+    # not apply to them.
+    for param in codec.parameters:
+        if isinstance(param, (LengthKeyParameter, TableKeyParameter)):
+            encode_state.length_keys.pop(param.short_name, None)
+            encode_state.table_keys.pop(param.short_name, None)
+
     # ensure that no values for unknown parameters are specified.
     if not encode_state.allow_unknown_parameters:
         param_names = {param.short_name for param in codec.parameters}
